@@ -386,7 +386,7 @@ impl Property for C04 {
     }
     fn runs(&self, tier: Tier) -> usize {
         match tier {
-            Tier::Quick => 20_000,
+            Tier::Quick => 60_000,
             Tier::Thorough => 3_000_000,
         }
     }
